@@ -55,7 +55,7 @@ def struct_obligations(cells, M, job, st, prefix):
     if used is not None: o('header.points_vs_used', neq(H['nb_points'], used), 'header word 2 (points) differs from POINT:USED')
     if frames is not None and is_c(H['first']) and is_c(H['last']) and is_c(frames):
         nf = (H['last'] - H['first'] + 1) & 0xffff
-        o('header.frames_vs_point_frames', nf != (frames & 0xffff) and not (frames == 0 and used == 0 and (aused or 0) == 0), 'header frame range %s..%s (count %d) vs POINT:FRAMES %s' % (H['first'], H['last'], nf, frames))
+        o('header.frames_vs_point_frames', nf != (frames & 0xffff) and not (frames == 0 and ((used == 0 and (aused or 0) == 0) or (H['nb_points'] == 0 and H['analog_total'] == 0))), 'header frame range %s..%s (count %d) vs POINT:FRAMES %s' % (H['first'], H['last'], nf, frames))
     if rate is not None: o('header.rate_vs_point_rate', neq(H['rate'], rate), 'header frame rate differs from POINT:RATE')
     if aused is not None and is_c(H['sub']) and is_c(H['analog_total']) and is_c(aused):
         if H['sub'] >= 1:
